@@ -387,6 +387,7 @@ class ListBox(Widget, WidgetContainerMixin):
         # used for scrollable protocol
         self._rows_max_cached = 0
         self._rendered_size = 0, 0
+        self._zero_height_below: list[Widget] = []
 
     @property
     def body(self) -> ListWalker:
@@ -514,6 +515,7 @@ class ListBox(Widget, WidgetContainerMixin):
         pos = focus_pos
         fill_lines = maxrow - focus_rows - offset_rows + inset_rows
         fill_below = []
+        self._zero_height_below = []  # left out of fill_below, but what render() shows still depends on them
         while fill_lines > 0:
             next_pos, pos = self._body.get_next(pos)
             if next_pos is None:  # run out of widgets below?
@@ -522,6 +524,8 @@ class ListBox(Widget, WidgetContainerMixin):
             n_rows = next_pos.rows((maxcol,))
             if n_rows:  # filter out 0-height widgets
                 fill_below.append(VisibleInfoFillItem(next_pos, pos, n_rows))
+            else:
+                self._zero_height_below.append(next_pos)
             if n_rows > fill_lines:  # crosses bottom edge?
                 trim_bottom = n_rows - fill_lines
                 fill_lines -= n_rows
@@ -733,6 +737,14 @@ class ListBox(Widget, WidgetContainerMixin):
             combinelist.append((canvas, w_pos, False))
 
         final_canvas = CanvasCombine(combinelist)
+        if self._zero_height_below:
+            # items without rows inside the visible span get rows when their content changes
+            final_canvas.set_depends(
+                [widget for widget, _pos, _rows in fill_above]
+                + [focus_widget]
+                + [widget for widget, _pos, _rows in fill_below]
+                + self._zero_height_below
+            )
 
         if trim_top:
             final_canvas.trim(trim_top)
